@@ -18,7 +18,7 @@ RULE = ("case 'exp' = (matrix, ordered pair of writers (w1, w2) out of arxml, cs
         "Matrices include long names (> 32 characters), free signals, cycle times, duplicate frame names, receiver lists not yet "
         "propagated to the frames, multiplex groups with many values, attributes with definitions. quick: every ordered pair on 1 "
         "matrix per shard + random pairs; thorough: every ordered pair on 20 matrices. case 'seeds' = the same exports in "
-        "The 'seeds' case also exports every matrix in the long-running process after a variant of it (same names, other value texts, comments, units) and compares with a fresh process. The process state decoding depends on (decimal context) is compared before and after every export; comments over two lines occur. subprocesses under 6 (thorough: 12) values of PYTHONHASHSEED, always including a frame with 15 multiplex groups. One matrix in seven has a frame whose length was never set (0) although it has signals. Further configurations of the writers (options of formats.dump: csv delimiters, bit notations and attribute columns of csv/xls/json, encodings of dbc/dbf/sym, dbc without compatibility names and value tables, arxml 3, json native types) are paired with every configuration of the same format in both orders and with random configurations. Matrices also have frames of their own named VECTOR__INDEPENDENT_SIG_MSG (with and without signals without frame), the ECU name Vector__XXX as a transmitter/receiver, definitions of their own under the names the writers define (GenMsgCycleTime, VFrameFormat, GenSigStartValue, System...LongSymbol, BusType) and texts outside ASCII. 'unchanged' also compares what the matrix answers to lookups by name and identifier (frame_by_name, get_frame_by_name, frame_by_id, get_frame_by_id, ecu_by_name, for every name/identifier in the matrix, the reserved ones and all keys of the lookup dictionaries); decoding is also done through CanMatrix.decode. Every 'exp' case starts from the decimal context of a fresh interpreter. In the 'seeds' case every subprocess has its own export history (listed order, reverse order, shuffles of the (configuration, matrix) pairs) and the long-running process exports a variant with every other configuration of the same writer first. One number occurs in several spellings in one matrix (0.5 and 0.50, 1 and 1.00, 100 and 1E+2) and in the variants (every number respelled); the signals of a multiplexed frame are listed in any order and frames carry sym's Sendable/Receivable attributes, so that the writers visit the numbers in different orders. Every export an 'exp' case makes in the long-running process (w1, w1 on a fresh copy, w2 after w1, w2 on a fresh copy) is compared with the same export made ALONE in a fresh process (lib/export_worker.py --serve: a process that has done the imports and exported nothing forks one child per run), and a fresh process with a history of its own (variant to w1, matrix to w1, the same object to w2) is compared with them too (thorough: every case; quick: every random case and a quarter of the exhaustive pairs per shard, rotating). Non-trivial = every distinct case (each exercises >= 1 writer).")
+        "The 'seeds' case also exports every matrix in the long-running process after a variant of it (same names, other value texts, comments, units) and compares with a fresh process. The process state decoding depends on (decimal context) is compared before and after every export; comments over two lines occur. subprocesses under 6 (thorough: 12) values of PYTHONHASHSEED, always including a frame with 15 multiplex groups. One matrix in seven has a frame whose length was never set (0) although it has signals. Further configurations of the writers (options of formats.dump: csv delimiters, bit notations and attribute columns of csv/xls/json, encodings of dbc/dbf/sym, dbc without compatibility names and value tables, arxml 3, json native types) are paired with every configuration of the same format in both orders and with random configurations. Matrices also have frames of their own named VECTOR__INDEPENDENT_SIG_MSG (with and without signals without frame), the ECU name Vector__XXX as a transmitter/receiver, definitions of their own under the names the writers define (GenMsgCycleTime, VFrameFormat, GenSigStartValue, System...LongSymbol, BusType) and texts outside ASCII. 'unchanged' also compares what the matrix answers to lookups by name and identifier (frame_by_name, get_frame_by_name, frame_by_id, get_frame_by_id, ecu_by_name, for every name/identifier in the matrix, the reserved ones and all keys of the lookup dictionaries); decoding is also done through CanMatrix.decode. Every 'exp' case starts from the decimal context of a fresh interpreter. In the 'seeds' case every subprocess has its own export history (listed order, reverse order, shuffles of the (configuration, matrix) pairs) and the long-running process exports a variant with every other configuration of the same writer first. One number occurs in several spellings in one matrix (0.5 and 0.50, 1 and 1.00, 100 and 1E+2) and in the variants (every number respelled); the signals of a multiplexed frame are listed in any order and frames carry sym's Sendable/Receivable attributes, so that the writers visit the numbers in different orders. Every export an 'exp' case makes in the long-running process (w1, w1 on a fresh copy, w2 after w1, w2 on a fresh copy) is compared with the same export made ALONE in a fresh process (lib/export_worker.py --serve: a process that has done the imports and exported nothing forks one child per run), and a fresh process with a history of its own (variant to w1, matrix to w1, the same object to w2) is compared with them too (thorough: every case; quick: every random case and a quarter of the exhaustive pairs per shard, rotating). Matrices also have the rarely filled parts (45 %): PDUs inside frames with signals and signal groups of their own (frame.pdus, as the arxml reader keeps container I-PDUs; also frames that are nothing but the container and decode through their header signals), PDU name and header id, signal groups, names and comments per multiplexer value, named value tables, environment variables, baud rates, start values, cycle times and value-table names of signals. 'unchanged' also compares the whole object graph under the matrix field by field without a list of known fields (`everything`: every attribute of every reachable object, list and dictionary orders, types and spellings of numbers, which places hold the same object; only CanMatrix's lookup tables are left to the lookups), and decoding covers the nested results of container frames. Every 'exp' case exports the matrix to w1 once more, alone in a fresh process that runs in ANOTHER ENVIRONMENT (c.env: time zone out of five incl. LINT-14 and AOE12 which are never on the same date, clock moved by 0 / 7 h / 3 days / -400 days / 10 years for everything that reads it through time or datetime, other user/home/host name, working directory, locale) and demands the bytes of the export made alone here; in the 'seeds' case every subprocess has its own environment as well as its own hash seed and history (the first two in the two time zones 26 hours apart). Non-trivial = every distinct case (each exercises >= 1 writer).")
 EXHAUSTIVE = {"quick": False, "thorough": False}
 PARTIAL = ["the writers' footprint on their argument is recorded in the model by hand (copiesFirst/normalise); that the record is complete "
            "is established only by this correspondence check - the theorems carry least here",
@@ -91,7 +91,76 @@ def variant_of(d):
 
 def gen_own(rng, **kw):
     """the descriptions of C14's own streams"""
-    return gen_desc(rng, own_names=True, spellings=True, listing=True, **kw)
+    return gen_rare(rng, gen_desc(rng, own_names=True, spellings=True, listing=True, **kw))
+
+
+def gen_rare(rng, d):
+    """the parts of a matrix that files of one format or another fill and that most matrices leave empty: PDUs inside a frame with
+    signals and signal groups of their own (as the arxml reader keeps container / multiplexed / secured I-PDUs: frame.pdus), the name
+    and header of the frame's PDU, signal groups of the frame, names and comments per multiplexer value (sym), named value tables,
+    environment variables (dbc), baud rates, start values, cycle times and value-table names of signals.  A writer that has no place
+    for a part leaves it alone - in its file and in the matrix."""
+    if rng.random() >= 0.45:
+        return d
+    fr = d["frames"]
+    rare = d["rare"] = {}
+    for k, f in enumerate(fr):
+        if rng.random() < 0.6:
+            pdus = []
+            for p in range(rng.choice([1, 1, 2, 3])):
+                used = set()
+                sigs = []
+                for q in range(rng.choice([0, 1, 2, 2, 3])):
+                    sg = M.gen_signal(rng, "pdu%d_%d_sig%d" % (k, p, q), max(1, min(8, f["size"] or 8)), used,
+                                      {"maxwidth": 16, "floats": False, "values": rng.random() < 0.3, "limits": True})
+                    if sg:
+                        sigs.append(sg)
+                names = [sg["name"] for sg in sigs]
+                pdus.append({"name": "Pdu%d_%d" % (k, p), "size": max(1, min(8, f["size"] or 8)), "id": rng.choice([0, p + 1, 0x1234]),
+                             "triggering": rng.choice(["", "PT_Pdu%d_%d" % (k, p)]), "type": rng.choice(["", "I-SIGNAL-I-PDU", "SECURED-I-PDU"]),
+                             "port": rng.choice(["", "OUT"]), "cycle": rng.choice([0, 0, 10, 100]), "signals": sigs,
+                             "groups": [["pg%d" % p, p, rng.sample(names, rng.randint(1, len(names)))]] if names and rng.random() < 0.5 else []})
+            f["pdus"] = pdus
+            if rng.random() < 0.4 and not any(sg.get("mux") is not None for sg in f["signals"]):
+                # ... a frame that is nothing but the container (Frame.decode reads the two header signals and then the PDUs by their
+                # identifiers: one PDU gets the identifier the payloads of decode_all carry)
+                hdr = {"little": True, "signed": False, "float": False, "factor": "1", "offset": "0", "unit": "", "receivers": [], "comment": None,
+                       "mux": None, "values": {}, "min": None, "max": None}
+                f["signals"] = [dict(hdr, name="Header_ID", start=0, size=8), dict(hdr, name="Header_DLC", start=8, size=8)]
+                f["size"] = max(f["size"], 4)
+                pdus[0]["id"] = rng.choice([0xA5, 0x5A])
+        if rng.random() < 0.3:
+            f["pdu_name"] = "IPdu_" + f["name"][:20]
+        if rng.random() < 0.2:
+            f["header_id"] = rng.choice([0, 1, 0x8001])
+        names = [sg["name"] for sg in f["signals"]]
+        if names and rng.random() < 0.4:
+            f["groups"] = [["grp%d_%d" % (k, g), g + 1, rng.sample(names, rng.randint(1, len(names)))] for g in range(rng.choice([1, 1, 2]))]
+        mv = [sg["mux"] for sg in f["signals"] if isinstance(sg.get("mux"), int)]
+        if mv and rng.random() < 0.6:
+            some = rng.sample(mv, rng.randint(1, len(mv)))
+            f["mux_names"] = {str(v): "Mode_%d" % v for v in some}
+            f["mux_comments"] = {str(v): "mode %d is active" % v for v in rng.sample(some, rng.randint(0, len(some)))}
+        for sg in f["signals"]:
+            if rng.random() < 0.2:
+                sg["initial"] = rng.choice(["0", "1", "0.5", "1.0", "3"])
+            if rng.random() < 0.15:
+                sg["sig_cycle"] = rng.choice([5, 20, 50])
+            if sg.get("values") and rng.random() < 0.3:
+                sg["enumeration"] = "VT_" + sg["name"][:16]
+    if rng.random() < 0.5:
+        rare["value_tables"] = {"Table%d" % k: {str(v): "t%d_%d" % (k, v) for v in rng.sample(range(16), rng.randint(1, 4))} for k in range(rng.randint(1, 3))}
+    if rng.random() < 0.4:
+        rare["env_vars"] = {"EnvVar%d" % k: {"varType": rng.choice([0, 1]), "min": "0", "max": rng.choice(["1", "255"]), "unit": rng.choice(["", "V"]),
+                                            "initialValue": "0", "evId": k + 1, "accessType": "DUMMY_NODE_VECTOR0", "accessNodes": [NOBODY],
+                                            **({"attributes": {"EnvNote": "note %d" % k}} if rng.random() < 0.5 else {})}
+                            for k in range(rng.randint(1, 2))}
+    if rng.random() < 0.4:
+        rare["baudrate"] = rng.choice([125000, 500000])
+        rare["fd_baudrate"] = rng.choice([0, 2000000])
+    if rng.random() < 0.3:
+        rare["Baudrate"] = rng.choice(["500000", "250000"])          # (the attribute kcd writes into its Bus element)
+    return d
 
 
 def gen_desc(rng, many_groups=False, common_prefix=False, own_names=False, spellings=False, listing=False):
@@ -201,8 +270,72 @@ def _gen_desc(rng, many_groups=False, common_prefix=False, own_names=False):
     return d
 
 
+def mk_signal(s):
+    """as lib.matrices.build makes the signals of a frame"""
+    kw = {}
+    if s.get("min") is not None:
+        kw["min"] = decimal.Decimal(s["min"])
+        kw["max"] = decimal.Decimal(s["max"])
+    sg = cm.Signal(s["name"], start_bit=s["start"], size=s["size"], is_little_endian=s["little"], is_signed=s["signed"],
+                   is_float=s.get("float", False), factor=decimal.Decimal(s["factor"]), offset=decimal.Decimal(s["offset"]), unit=s.get("unit", ""),
+                   receivers=list(s["receivers"]), comment=s.get("comment"), multiplex=s.get("mux"), **kw)
+    for k, v in s.get("values", {}).items():
+        sg.add_values(int(k), v)
+    return sg
+
+
+def build_rare(db, d):
+    """the rarely filled parts (gen_rare), through the calls the readers use"""
+    rare = d["rare"]
+    for f, fd in zip(db.frames, d["frames"]):
+        for p in fd.get("pdus", []):
+            pdu = cm.Pdu(name=p["name"], size=p["size"], id=p["id"], triggering_name=p["triggering"], pdu_type=p["type"], port_type=p["port"],
+                         cycle_time=p["cycle"])
+            for s in p["signals"]:
+                pdu.add_signal(mk_signal(s))
+            for name, gid, members in p["groups"]:
+                pdu.add_signal_group(name, gid, members)
+            f.add_pdu(pdu)
+        if "pdu_name" in fd:
+            f.pdu_name = fd["pdu_name"]
+        if "header_id" in fd:
+            f.header_id = fd["header_id"]
+        for name, gid, members in fd.get("groups", []):
+            f.add_signal_group(name, gid, members)
+        if "mux_names" in fd:
+            f.mux_names = {int(k): v for k, v in fd["mux_names"].items()}
+            mx = [s for s in f.signals if s.is_multiplexer]
+            if mx:
+                mx[0].comments = {int(k): v for k, v in fd["mux_comments"].items()}
+        for s, sd in zip(f.signals, fd["signals"]):
+            if "initial" in sd:
+                s.initial_value = decimal.Decimal(sd["initial"])
+            if "sig_cycle" in sd:
+                s.cycle_time = sd["sig_cycle"]
+            if "enumeration" in sd:
+                s.enumeration = sd["enumeration"]
+    for name, table in rare.get("value_tables", {}).items():
+        db.add_value_table(name, {int(k): v for k, v in table.items()})
+    if "env_vars" in rare:
+        db.add_env_defines("EnvNote", "STRING")
+        for name, ev in rare["env_vars"].items():
+            ev = pycopy.deepcopy(ev)
+            attrs = ev.pop("attributes", {})
+            db.add_env_var(name, ev)
+            for a, v in attrs.items():
+                db.add_env_attribute(name, a, v)
+    if "baudrate" in rare:
+        db.baudrate = rare["baudrate"]
+        db.fd_baudrate = rare["fd_baudrate"]
+    if "Baudrate" in rare:
+        db.add_global_defines("Baudrate", "INT 0 1000000")
+        db.add_attribute("Baudrate", rare["Baudrate"])
+
+
 def build(d):
     db = M.build(d, update=d.get("opts", {}).get("update", True))
+    if d.get("rare") is not None:
+        build_rare(db, d)
     for s in d.get("free", []):
         db.add_signal(cm.Signal(s["name"], size=s["size"]))
     if d.get("attrs"):
@@ -260,24 +393,27 @@ def gen(rng, tier, shard, nshards):
     # (the first two shards, which also run the 'seeds' case, leave the histories of the exhaustive pairs to the others)
     def hist(i, j):
         return tier != "quick" or nshards < 8 or (shard >= 2 and (i + j + shard) % 4 == 0)
+    # "env": the environment of one more fresh process that exports the matrix to w1 alone (another time zone, date, user, ...)
     for _ in range(nmat):
         d = gen_own(rng)
+        env = gen_env(rng)
         for i, w1 in enumerate(WKEYS):
             for j, w2 in enumerate(WKEYS):
-                yield {"op": "exp", "c": {"m": d, "w1": w1, "w2": w2, "hist": hist(i, j)}}
+                yield {"op": "exp", "c": {"m": d, "w1": w1, "w2": w2, "hist": hist(i, j), "env": env}}
     for _ in range({"quick": 60, "thorough": 600}[tier] // nshards + 1):
-        yield {"op": "exp", "c": {"m": gen_own(rng), "w1": rng.choice(WKEYS), "w2": rng.choice(WKEYS)}}
+        yield {"op": "exp", "c": {"m": gen_own(rng), "w1": rng.choice(WKEYS), "w2": rng.choice(WKEYS), "env": gen_env(rng)}}
     # the other configurations of the writers: every ordered pair of configurations of one format (one of them not the plain one) on
     # one matrix, and random pairs of any two configurations
     for _ in range(nmat):
         d = gen_own(rng)
+        env = gen_env(rng)
         for i, w1 in enumerate(CKEYS):
             for j, w2 in enumerate([w1] + SIBLINGS[w1]):
                 if w1 in VARIANTS or w2 in VARIANTS:
-                    yield {"op": "exp", "c": {"m": d, "w1": w1, "w2": w2, "hist": hist(i, j)}}
+                    yield {"op": "exp", "c": {"m": d, "w1": w1, "w2": w2, "hist": hist(i, j), "env": env}}
     for _ in range({"quick": 60, "thorough": 600}[tier] // nshards + 1):
         w1 = rng.choice(CKEYS)
-        yield {"op": "exp", "c": {"m": gen_own(rng), "w1": w1, "w2": rng.choice(CKEYS if w1 in VARIANTS else sorted(VARIANTS))}}
+        yield {"op": "exp", "c": {"m": gen_own(rng), "w1": w1, "w2": rng.choice(CKEYS if w1 in VARIANTS else sorted(VARIANTS)), "env": gen_env(rng)}}
     if shard < 2:
         ms = [gen_own(rng, many_groups=(k == 0), common_prefix=(k == 1)) for k in range(3 if tier == "quick" else 10)]
         # seeds 19, 23, 40 give three further iteration orders of {'Multiplexor', 0, 1, 2, 3, 5, …, 233} on CPython 3.12 (found by search)
@@ -292,15 +428,25 @@ def gen(rng, tier, shard, nshards):
             o = list(plain)
             rng.shuffle(o)
             orders.append(o)
-        yield {"op": "seeds", "c": {"ms": ms, "seeds": seeds, "orders": orders}}
+        # ... and its own place and time (the first two processes in time zones 26 hours apart)
+        yield {"op": "seeds", "c": {"ms": ms, "seeds": seeds, "orders": orders, "envs": [gen_env(rng, k) for k in range(len(seeds))]}}
 
 
 def neighbours(case, rng, shard, nshards):
     if case["op"] != "exp":
         return
     for _ in range(40 // nshards + 1):
-        yield {"op": "exp", "c": {"m": gen_own(rng), "w1": case["c"]["w1"], "w2": case["c"]["w2"]}}
-        yield {"op": "exp", "c": {"m": case["c"]["m"], "w1": case["c"]["w1"], "w2": rng.choice(CKEYS)}}
+        yield {"op": "exp", "c": {"m": gen_own(rng), "w1": case["c"]["w1"], "w2": case["c"]["w2"], "env": gen_env(rng)}}
+        yield {"op": "exp", "c": {"m": case["c"]["m"], "w1": case["c"]["w1"], "w2": rng.choice(CKEYS), "env": gen_env(rng)}}
+
+
+def plain(v):
+    """a decoded value as text; the result of a container frame is nested (lists of header values, one dictionary per PDU)"""
+    if isinstance(v, dict):
+        return sorted((k, plain(x)) for k, x in v.items())
+    if isinstance(v, (list, tuple)):
+        return [plain(x) for x in v]
+    return str(v.raw_value) if hasattr(v, "raw_value") else str(v)
 
 
 def decode_all(db):
@@ -310,13 +456,13 @@ def decode_all(db):
             continue
         try:
             d = f.decode(bytes([0xA5, 0x3C, 0x96, 0x0F, 0xF0, 0x55, 0xAA, 0x81] * 8)[:f.size])
-            out.append(sorted((k, str(v.raw_value)) for k, v in d.items()))
+            out.append(plain(d))
         except Exception as e:  # noqa
             out.append("EXC:" + type(e).__name__)
         # ... and through the matrix, which looks the frame up by its identifier
         try:
             d = db.decode(cm.ArbitrationId(f.arbitration_id.id, f.arbitration_id.extended), bytes([0x5A, 0xC3, 0x69, 0xF0, 0x0F, 0xAA, 0x55, 0x18] * 8)[:f.size])
-            out.append(sorted((k, str(v.raw_value)) for k, v in d.items()))
+            out.append(plain(d))
         except Exception as e:  # noqa
             out.append("EXC:" + type(e).__name__)
     return out
@@ -362,13 +508,157 @@ def process_state():
     return [ctx.prec, ctx.rounding, ctx.Emin, ctx.Emax, ctx.capitals, ctx.clamp, sorted(str(t) for t, on in ctx.traps.items() if on)]
 
 
+# what CanMatrix keeps to answer lookups faster (filled by the lookups themselves; judged through `lookups`, not as content)
+LOOKUP_TABLES = ("frames_dict_name", "frames_dict_id", "_frames_dict_id_extend")
+
+
+def everything(x, seen=None, top=True):
+    """the whole object graph under the matrix, field by field, whatever the fields are called: every attribute of every object
+    (frames, signals, PDUs and their signals and groups, ECUs, definitions, environment variables, end points, ...), lists and
+    dictionaries in their order, numbers with their type and spelling, and which places hold one and the same object (an object met
+    again is named by the number of its first visit).  normal_form names the parts it knows; this one has no list of parts."""
+    seen = {} if seen is None else seen
+    if x is None or isinstance(x, str):
+        return x
+    if isinstance(x, (bool, int, float, decimal.Decimal, bytes)):
+        return "%s %r" % (type(x).__name__, x)
+    import enum
+    if isinstance(x, enum.Enum):
+        return "%s.%s" % (type(x).__name__, x.name)
+    if id(x) in seen:
+        return {"the object visited as number": seen[id(x)]}
+    seen[id(x)] = len(seen)
+    if isinstance(x, dict):
+        return {"dict": [[everything(k, seen, False), everything(v, seen, False)] for k, v in x.items()]}
+    if isinstance(x, (list, tuple)):
+        return {type(x).__name__: [everything(v, seen, False) for v in x]}
+    if isinstance(x, (set, frozenset)):
+        return {"set": sorted(json.dumps(everything(v, seen, False), sort_keys=True, default=str) for v in x)}
+    fields = dict(getattr(x, "__dict__", {}))
+    for cls in type(x).__mro__:
+        for name in getattr(cls, "__slots__", ()):
+            if hasattr(x, name):
+                fields[name] = getattr(x, name)
+    if not fields and not hasattr(x, "__dict__"):
+        return "%s %s" % (type(x).__name__, x)
+    return {"object": type(x).__name__,
+            "fields": {k: everything(v, seen, False) for k, v in sorted(fields.items()) if not (top and k in LOOKUP_TABLES)}}
+
+
+def where_differs(a, b, path="matrix"):
+    """the first place in which two results of `everything` differ"""
+    if type(a) is not type(b):
+        return [path, str(a)[:200], str(b)[:200]]
+    if isinstance(a, dict):
+        if sorted(a) != sorted(b):
+            return [path, sorted(a), sorted(b)]
+        for k in a:
+            d = where_differs(a[k], b[k], path if k in ("fields", "dict", "list", "tuple") else "%s.%s" % (path, k))
+            if d:
+                return d
+        return None
+    if isinstance(a, list):
+        for k, (x, y) in enumerate(zip(a, b)):
+            d = where_differs(x, y, "%s[%d]" % (path, k))
+            if d:
+                return d
+        return None if len(a) == len(b) else [path, "%d entries" % len(a), "%d entries" % len(b)]
+    return None if a == b else [path, str(a)[:200], str(b)[:200]]
+
+
+# where and when an export is made: nothing of it belongs to the matrix, so nothing of it may show in the file.  Two of the time zones are
+# 26 hours apart (never on one calendar date, whatever the clock says); the clock is moved by hours, days and years.
+TIME_ZONES = ["LINT-14", "AOE12", "UTC0", "CET-1CEST,M3.5.0,M10.5.0/3", "NST3:30NDT,M3.2.0,M11.1.0"]
+CLOCK_SHIFTS = [0, 7 * 3600, 3 * 86400, -400 * 86400, 3653 * 86400]
+
+
+def gen_env(rng, k=None):
+    """another place and time for a process (k: the k-th of several processes that are compared with each other - the first two get
+    the two time zones that are never on the same date)"""
+    return {"TZ": TIME_ZONES[k] if k is not None and k < 2 else rng.choice(TIME_ZONES[:2] * 2 + TIME_ZONES), "clock": rng.choice(CLOCK_SHIFTS),
+            "cwd": rng.choice(["/", "/tmp", None]), "locale": rng.choice(["C", "C.utf8", None]),
+            "user": rng.choice([None, "someone_else"])}
+
+
+def enter_environment(env):
+    """make THIS process (a child forked for one run, or a worker started for one history) one that runs somewhere else at another
+    time: time zone, user, home and working directory, locale, and a clock that is `clock` seconds ahead - for everything that reads
+    it through the time or datetime module (also under names bound by `from datetime import datetime` before)."""
+    import datetime
+    import locale
+    import time
+    if env.get("TZ"):
+        os.environ["TZ"] = env["TZ"]
+        time.tzset()
+    if env.get("user"):
+        for k in ("USER", "LOGNAME", "USERNAME", "LNAME"):
+            os.environ[k] = env["user"]
+        os.environ["HOME"] = "/home/" + env["user"]
+        os.environ["HOSTNAME"] = "host-of-" + env["user"]
+    if env.get("cwd"):
+        os.chdir(env["cwd"])
+    if env.get("locale"):
+        os.environ["LC_ALL"] = os.environ["LANG"] = env["locale"]
+        try:
+            locale.setlocale(locale.LC_ALL, env["locale"])
+        except locale.Error:
+            pass
+    shift = env.get("clock") or 0
+    if not shift:
+        return
+    real = {k: getattr(time, k) for k in ("time", "time_ns", "localtime", "gmtime", "ctime", "asctime", "strftime")}
+    real_date, real_datetime = datetime.date, datetime.datetime
+
+    def now():
+        return real["time"]() + shift
+
+    class Date(real_date):
+        @classmethod
+        def today(cls):
+            return cls.fromtimestamp(now())
+
+    class DateTime(real_datetime):
+        @classmethod
+        def now(cls, tz=None):
+            return cls.fromtimestamp(now(), tz)
+
+        @classmethod
+        def today(cls):
+            return cls.fromtimestamp(now())
+
+        @classmethod
+        def utcnow(cls):
+            return cls.fromtimestamp(now(), datetime.timezone.utc).replace(tzinfo=None)
+    Date.__name__ = Date.__qualname__ = "date"
+    DateTime.__name__ = DateTime.__qualname__ = "datetime"
+    new = {"time": now, "time_ns": lambda: real["time_ns"]() + shift * 10 ** 9,
+           "localtime": lambda secs=None: real["localtime"](now() if secs is None else secs),
+           "gmtime": lambda secs=None: real["gmtime"](now() if secs is None else secs),
+           "ctime": lambda secs=None: real["ctime"](now() if secs is None else secs),
+           "asctime": lambda t=None: real["asctime"](real["localtime"](now()) if t is None else t),
+           "strftime": lambda fmt, t=None: real["strftime"](fmt, real["localtime"](now()) if t is None else t)}
+    swap = {id(v): new[k] for k, v in real.items()}
+    swap[id(real_date)], swap[id(real_datetime)] = Date, DateTime
+    for mod in list(sys.modules.values()):
+        try:
+            names = [(k, v) for k, v in vars(mod).items() if id(v) in swap and not k.startswith("__")]
+        except Exception:  # noqa
+            continue
+        for k, v in names:
+            try:
+                setattr(mod, k, swap[id(v)])
+            except Exception:  # noqa
+                pass
+
+
 WORKER = os.path.join(os.path.dirname(os.path.dirname(os.path.abspath(__file__))), "lib", "export_worker.py")
 _FRESH = {}
 _ALONE = {}
 
 
-def fresh_runs(ms, runs, text=False):
-    """every run (a list of steps [index into ms, configuration key]) made in a process of its own that has exported nothing before
+def fresh_runs(ms, runs, text=False, envs=None):
+    """(envs: per run None or the environment the child enters before its first export, see enter_environment)
+    every run (a list of steps [index into ms, configuration key]) made in a process of its own that has exported nothing before
     (lib/export_worker.py --serve forks one child per run from a process that has only done the imports); per run the sha256 (or the
     text) of every export, 'EXC:<type>' where it raised.  Within a run one matrix index is one object."""
     from lib.core import Infra
@@ -381,7 +671,7 @@ def fresh_runs(ms, runs, text=False):
                                  env=dict(os.environ, PYTHONHASHSEED="0", PYTHONDONTWRITEBYTECODE="1"))
             _FRESH[me] = z
         try:
-            z.stdin.write((json.dumps({"ms": ms, "runs": runs, "text": text}) + "\n").encode())
+            z.stdin.write((json.dumps({"ms": ms, "runs": runs, "text": text, "envs": envs or [None] * len(runs)}) + "\n").encode())
             z.stdin.flush()
             line = z.stdout.readline()
         except OSError:
@@ -410,7 +700,13 @@ def observe(case):
         for seed in c["seeds"]:
             env = dict(os.environ, PYTHONHASHSEED=str(seed), PYTHONDONTWRITEBYTECODE="1")
             job = c["ms"] if "orders" not in c else {"ms": c["ms"], "order": c["orders"][len(results)]}
-            p = subprocess.run([sys.executable, worker], input=json.dumps(job).encode(), capture_output=True, env=env, timeout=600)
+            cwd = None
+            if "envs" in c and "orders" in c:
+                # the process is started in its time zone, directory and locale, and moves its clock before its first export
+                job["env"] = e = c["envs"][len(results)]
+                env.update({k: v for k, v in (("TZ", e.get("TZ")), ("LC_ALL", e.get("locale")), ("LANG", e.get("locale"))) if v})
+                cwd = e.get("cwd")
+            p = subprocess.run([sys.executable, worker], input=json.dumps(job).encode(), capture_output=True, env=env, timeout=600, cwd=cwd)
             if p.returncode != 0:
                 raise RuntimeError("export worker failed: " + p.stderr.decode()[-500:])
             results.append(json.loads(p.stdout.decode().strip().split("\n")[-1]))
@@ -443,11 +739,13 @@ def observe(case):
     db = build(c["m"])
     before = M.normal_form(db, "all")
     before["lookups"] = lookups(db)
+    before["everything"] = everything(db)
     dec_before = decode_all(db)
     ctx_before = process_state()
     b1 = M.export_bytes(db, f1, **o1)
     after = M.normal_form(db, "all")
     after["lookups"] = lookups(db)
+    after["everything"] = everything(db)
     dec_after = decode_all(db)
     ctx_after = process_state()
     b2 = M.export_bytes(db, f2, **o2)
@@ -463,13 +761,21 @@ def observe(case):
     with_history = c.get("hist", True)
     mkey = hashlib.sha256(json.dumps(c["m"], sort_keys=True).encode()).hexdigest()
     need = [w for w in sorted({c["w1"], c["w2"]}) if (mkey, w) not in _ALONE]
-    runs = ([history] if with_history else []) + [[[0, w]] for w in need]
-    res = ([] if with_history else [[]]) + (fresh_runs(ms, runs) if runs else [])
+    # "elsewhere": the export to w1 made alone in a fresh process that runs in another environment (c["env"]: time zone, clock, user,
+    # directory, locale) - the same matrix, so the same bytes
+    env = c.get("env")
+    ekey = (mkey, c["w1"], json.dumps(env, sort_keys=True))
+    need_env = bool(env) and ekey not in _ALONE
+    runs = ([history] if with_history else []) + [[[0, w]] for w in need] + ([[[0, c["w1"]]]] if need_env else [])
+    res = ([] if with_history else [[]]) + (fresh_runs(ms, runs, envs=[None] * (len(runs) - 1) + [env] if need_env else None) if runs else [])
     if len(_ALONE) > 4000:
         _ALONE.clear()
     for w, out in zip(need, res[1:]):
         _ALONE[(mkey, w)] = out[0]
+    if need_env:
+        _ALONE[ekey] = res[-1][0]
     alone1, alone2 = _ALONE[(mkey, c["w1"])], _ALONE[(mkey, c["w2"])]
+    elsewhere1 = _ALONE[ekey] if env else alone1
 
     def sha(b):
         return hashlib.sha256(b).hexdigest()
@@ -479,7 +785,9 @@ def observe(case):
               "w2 of a fresh copy in this process": [sha(b2_fresh) == alone2, lambda: b2_fresh.decode("latin-1")]}
     twice = {"w1 after w1 of a variant, in a fresh process": [not with_history or res[0][1] == alone1, lambda: fresh_runs(ms, [history], text=True)[0][1]],
              "w1 in this process": [sha(b1) == alone1, lambda: b1.decode("latin-1")],
-             "w1 of a fresh copy in this process": [sha(b1_again) == alone1, lambda: b1_again.decode("latin-1")]}
+             "w1 of a fresh copy in this process": [sha(b1_again) == alone1, lambda: b1_again.decode("latin-1")],
+             "w1 alone in a fresh process in another environment (time zone, clock, user, directory, locale)":
+                 [elsewhere1 == alone1, lambda: fresh_runs(ms, [[[0, c["w1"]]]], text=True, envs=[env])[0][0]]}
     r = {"unchanged": before == after, "second_same": b2 == b2_fresh and all(v[0] for v in across.values()),
          "twice_same": b1 == b1_again and all(v[0] for v in twice.values()), "decode_same": dec_before == dec_after and ctx_before == ctx_after}
     differ = [(k, v[1], w) for w, grp in ((c["w2"], across), (c["w1"], twice)) for k, v in grp.items() if not v[0]]
@@ -487,10 +795,14 @@ def observe(case):
         r["differs_from_the_export_made_alone_in_a_fresh_process"] = sorted(k for k, _, _ in differ)
         k, text, w = differ[0]
         r["first_difference"] = dict(first_difference(fresh_runs(ms, [[[0, w]]], text=True)[0][0], text()) or {}, of=k)
+        if env and elsewhere1 != alone1:
+            r["environment"] = env
     if ctx_before != ctx_after:
         r["process_state"] = [str(ctx_before), str(ctx_after)]
     if not r["unchanged"]:
         r["diff"] = [k for k in before if before[k] != after[k]]
+        if "everything" in r["diff"]:
+            r["first_change [place, before, after]"] = where_differs(before["everything"], after["everything"])
         if "lookups" in r["diff"]:
             r["lookups"] = {k: [before["lookups"].get(k, "not asked"), after["lookups"].get(k, "not asked")]
                             for k in sorted(set(before["lookups"]) | set(after["lookups"])) if before["lookups"].get(k, "not asked") != after["lookups"].get(k, "not asked")}
@@ -535,9 +847,27 @@ def features(case, impl):
                 break
         if any(m.get("sections") or []):
             yield "frames in sym's SEND / RECEIVE sections"
+        if m.get("rare") is not None:
+            yield "rarely filled parts"
+            for f in m["frames"]:
+                if f.get("pdus"):
+                    yield "a frame with PDUs" + (" and nothing but the header signals" if f["signals"][0]["name"] == "Header_ID" else "")
+                    if any(p["signals"] for p in f["pdus"]):
+                        yield "a PDU with signals"
+                for k, text in (("groups", "signal groups"), ("mux_names", "names per multiplexer value"), ("pdu_name", "a PDU name"), ("header_id", "a header id")):
+                    if f.get(k):
+                        yield text
+            for k in m["rare"]:
+                yield "rare: " + k
+        if case["c"].get("env"):
+            e = case["c"]["env"]
+            yield "w1 also alone in a fresh process elsewhere: TZ=%s" % e["TZ"]
+            yield "w1 also alone in a fresh process elsewhere: clock %+d days" % (e["clock"] // 86400)
         yield "own history in a fresh process" if case["c"].get("hist", True) else "compared with exports made alone in fresh processes"
     elif "orders" in case["c"]:
         yield "export histories differ between the processes"
+        if "envs" in case["c"]:
+            yield "time zone, clock, user, directory and locale differ between the processes"
 
 
 def nontrivial(case, impl):
